@@ -68,7 +68,28 @@ impl C04 {
     }
 }
 
+/// Set when every run uses a bundled benchmark model (tens of variables): formulae are kept small
+/// and free of the expensive nested fixed-point operators, so that one run stays in the seconds.
+pub static BIG_MODEL: std::sync::atomic::AtomicBool = std::sync::atomic::AtomicBool::new(false);
+
+pub fn big_model() -> bool {
+    BIG_MODEL.load(std::sync::atomic::Ordering::Relaxed)
+}
+
 pub fn gen_cfg(world: &World, rng: &mut Rng) -> GenCfg {
+    if big_model() {
+        return GenCfg {
+            props: world.var_names(),
+            labels: world.context.keys().cloned().collect(),
+            max_depth: (world.k as usize).min(2),
+            max_size: rng.range(4, 9),
+            domain_num: 1,
+            domain_den: 3,
+            pattern_weight: 1,
+            allow_wild: true,
+            heavy_ops: false,
+        };
+    }
     GenCfg {
         props: world.var_names(),
         labels: world.context.keys().cloned().collect(),
@@ -88,12 +109,12 @@ pub fn random_obs(rng: &mut Rng, world: &World) -> ObsKind {
         1 => ObsKind::Record,
         _ => {
             let names = world.var_names();
-            let f = match rng.below(3) {
+            let f = match if big_model() { 0 } else { rng.below(3) } {
                 0 => format!("AX {}", rng.pick(&names)),
                 1 => "!{x}: AG EF {x}".to_string(),
                 _ => format!("!{{y}}: EX ({} & ~{{y}})", rng.pick(&names)),
             };
-            ObsKind::Reentrant { every: rng.range(1, 7), formula: f }
+            ObsKind::Reentrant { every: if big_model() { rng.range(20, 60) } else { rng.range(1, 7) }, formula: f }
         }
     }
 }
@@ -117,7 +138,7 @@ pub fn generate(rng: &Rng, world: &World) -> C04 {
     }
     let pool = Pool::generate(&mut r, &cfg);
     let g = Gen { cfg: &cfg, pool: &pool };
-    let n = r.weighted(&[0, 3, 4, 4, 3, 2, 1]);
+    let n = if big_model() { r.weighted(&[0, 3, 4, 2]) } else { r.weighted(&[0, 3, 4, 4, 3, 2, 1]) };
     let mut batch: Vec<F> = Vec::new();
     while batch.len() < n {
         let c = if batch.is_empty() { 0 } else { r.weighted(&[6, 2, 2]) };
